@@ -136,6 +136,7 @@ const (
 	WUNote
 	WUFullEmpty
 	WUBadProto
+	WUStack
 	WStatusWrapf
 	// multi-cause
 	MJoin
@@ -447,6 +448,9 @@ func init() {
 		build: func(n *Node, k, _ []error) error { return &UWrapReg{Msg: n.S[0].V, Code: n.N[0], Cause: k[0]} }})
 	def(WUBadProto, KindInfo{Slots: "U", Name: "uWrapBadProto", Arity: Wrap, Groups: GUser, Weight: 2,
 		build: func(n *Node, kids, _ []error) error { return &UWrapBadProto{Msg: n.S[0].V, Cause: kids[0]} }})
+	// enabled by Config.UserStack only: its stack does not survive a hop
+	def(WUStack, KindInfo{Slots: "U", Name: "uWrapStack", Arity: Wrap, Groups: GUser | GStack, Weight: 6,
+		build: func(n *Node, kids, _ []error) error { return NewUWrapStack(kids[0], n.S[0].V) }})
 	def(WUOpt, KindInfo{Slots: "U", Name: "uWrapOpt", Arity: Wrap, Groups: GUser, Weight: 2,
 		build: func(n *Node, k, _ []error) error { return &UWrapOpt{Msg: n.S[0].V, Cause: k[0]} }})
 	def(WFmtBare, KindInfo{Name: "fmt.Errorf(%w)", Arity: Wrap, Groups: GStd, Weight: 2,
